@@ -12,15 +12,39 @@ def pending(pid, reason):
 
 
 MEAS = ("Trusted base: TLC; the Python projection (harness/measure.py, harness/drivers) that calls the public solver API, "
-        "takes finite differences / locates discontinuities and encodes the measured operands as integers; "
-        "tolerances in spec/Laws.tla (resolution classes). The real arithmetic of the solver is not modelled in TLA+.")
+        "takes finite differences / locates discontinuities and plateaus from the returned fields and encodes the measured operands as integers; "
+        "tolerances in spec/Laws.tla (resolution classes). The real arithmetic of the solver is not modelled in TLA+; "
+        "the quantifier is the finite campaign of spec/Campaign.tla (exhaustively enumerated), not all reals.")
+TECH = "TLA+ trace validation (TLC) of measured scans over a TLC-enumerated campaign"
 
-claim("C03", "model_checking",
-      "TLC enumerates the whole parameter campaign (spec/Campaign.tla: every family x geometry x gamma x coefficient values of the tier) and, "
-      "for each configuration, validates the scan trace recorded from the real solver against spec/Profile.tla: on every returned point the "
-      "EOS declared in spec/Catalogue.tla is evaluated by TLC itself in sign/log integer arithmetic. Exhaustive over the stated finite campaign; "
-      "not a proof for all reals.",
-      MEAS, "TLA+ trace validation of measured scans (TLC) over a TLC-enumerated campaign", "DESIGN.md 9 C03")
 
-for p in ["C01", "C02", "C04", "C05", "C06", "C07", "C08", "C09", "C10", "C11", "C12", "C13", "C14", "C15", "C16", "C17", "C18", "C19", "C20"]:
+def scan_text(what):
+    return ("TLC enumerates the whole parameter campaign of spec/Campaign.tla (every family x geometry x gamma x coefficient / "
+            "left-right state lattice of the tier) and validates, for each configuration, the scan trace recorded from the real "
+            "solver against the scan machine spec/Profile.tla + TraceScan.tla: " + what +
+            " Verdicts are total (failed clauses are reported with their names, the trace is always consumed to its end); "
+            "coverage obligations (all four Riemann wave patterns with every sign of the velocity difference) are enforced.")
+
+
+claim("C01", "model_checking", scan_text(
+      "at every smooth point the term vectors of the documented mass / momentum / energy equations (term lists and counts owned by "
+      "spec/Catalogue.tla, incl. the Coggeshall heat-flux term in its three conduction kinds), measured by 4th-order differences of the "
+      "public call in r and t, must balance."), MEAS, TECH, "DESIGN.md 9 C01")
+claim("C02", "model_checking", scan_text(
+      "every discontinuity located from the returned fields (bisection / m-ary search) must satisfy mass, momentum and energy flux balance "
+      "in the frame moving with the speed implied by its located positions at t -/+ dt; contacts carry equal p, u and move with the fluid; "
+      "the sequence of regions and waves must be a word of the family's region grammar."), MEAS, TECH, "DESIGN.md 9 C02")
+claim("C03", "model_checking", scan_text(
+      "on every returned point the EOS declared in spec/Catalogue.tla is evaluated by TLC itself in sign/log integer arithmetic "
+      "(gamma law with the gamma of the point's side of the contact, Coggeshall pair p=Gamma rho T, e=Gamma T/(gamma-1))."), MEAS, TECH, "DESIGN.md 9 C03")
+claim("C04", "model_checking", scan_text(
+      "the integrals of density, momentum and total energy of the returned Riemann solution over a window containing all waves "
+      "(piecewise Gauss-Legendre between wave positions found from the fields) must equal initial content plus t times the flux difference."),
+      MEAS, TECH, "DESIGN.md 9 C04")
+claim("C17", "model_checking", scan_text(
+      "positivity of density / pressure / energy on every point, compressive shocks (pressure and density rise in the direction the material "
+      "crosses), monotone variation inside rarefaction fans (action property on consecutive fan points), and all values between the constant states."),
+      MEAS, TECH, "DESIGN.md 9 C17")
+
+for p in ["C05", "C06", "C07", "C08", "C09", "C10", "C11", "C12", "C13", "C14", "C15", "C16", "C18", "C19", "C20"]:
     pending(p, "check under construction in this round (design in DESIGN.md section 9); not claimed until it runs soundly on the unchanged tree")
